@@ -158,6 +158,57 @@ func (r *Run) Infra(msg string) {
 	}
 }
 
+// Export serialises what a worker process collected (counters, violations, infrastructure
+// errors) for Merge in the parent.
+func (r *Run) Export() []byte {
+	r.mu.Lock()
+	defer r.mu.Unlock()
+	cnt := map[string]int64{}
+	other := map[string]any{}
+	for k, v := range r.Cov {
+		if n, ok := v.(int64); ok {
+			cnt[k] = n
+		} else {
+			other[k] = v
+		}
+	}
+	b, _ := json.Marshal(map[string]any{"counters": cnt, "other": other, "violations": r.violations, "infra": r.infra, "samples": r.samples})
+	return b
+}
+
+// Merge adds a worker's Export to this run: counters are summed, the rest is kept.
+func (r *Run) Merge(data []byte) error {
+	var in struct {
+		Counters   map[string]int64 `json:"counters"`
+		Other      map[string]any   `json:"other"`
+		Violations []Violation      `json:"violations"`
+		Infra      []string         `json:"infra"`
+		Samples    []any            `json:"samples"`
+	}
+	if err := json.Unmarshal(data, &in); err != nil {
+		return err
+	}
+	r.mu.Lock()
+	defer r.mu.Unlock()
+	for k, n := range in.Counters {
+		cur, _ := r.Cov[k].(int64)
+		r.Cov[k] = cur + n
+	}
+	for k, v := range in.Other {
+		if _, ok := r.Cov[k]; !ok {
+			r.Cov[k] = v
+		}
+	}
+	r.violations = append(r.violations, in.Violations...)
+	r.infra = append(r.infra, in.Infra...)
+	for _, s := range in.Samples {
+		if len(r.samples) < 12 {
+			r.samples = append(r.samples, s)
+		}
+	}
+	return nil
+}
+
 // Finish writes the evidence file, prints the verdict lines and returns the exit code.
 func (r *Run) Finish() int {
 	r.mu.Lock()
